@@ -1,6 +1,7 @@
 import RexModel.Compiled.Schedule
 import RexModel.Compiled.Ring
 import RexModel.Compiled.BufSize
+import RexModel.Compiled.Trace
 import RexModel.Gen.Compiled
 
 /-! # C08 — input windows read exactly the scheduled messages from the output buffers
@@ -141,6 +142,40 @@ theorem C08_sized_ring_keeps_default (minIn maxOut : List Int) (hlen : minIn.len
   have : ((bufSize minIn maxOut).toNat : Int) = bufSize minIn maxOut := Int.toNat_of_nonneg (by omega)
   simp only [decide_eq_true_eq]
   omega
+
+/-! ## End to end: consecutive writes + producers earlier + computed sizes ⇒ the replay succeeds (`Compiled/Trace.lean`)
+
+The replay of `Schedule.lean` is a fold over the (partition, generation) grid; `replayOk_eq_traceOk` rewrites it as the
+replay of a trace of generations (`Gen`: reads as they see the buffers when the generation starts, then writes).
+`traceOk_of_sized` proves, by induction over the generations with the ring invariant of `Ring.lean` for every kind, that
+*every* trace meeting four hypotheses replays without a bad read; `sizedOk` decides the hypotheses and the driver runs
+it on every compiled instance (`sized` in the answer of `sched.replay`). -/
+
+/-- every trace (any number of generations, kinds, window entries) in which each kind writes consecutive sequence numbers
+from 0, every real message read was written in a strictly earlier generation, empty window entries carry -1, and each
+buffer is at least the size the model of `get_buffer_sizes` computes for each of its consumers, replays correctly -/
+theorem C08_trace_end_to_end (T : List Gen) (B : List Nat)
+    (hcons : ∀ κ, ∃ n, wseqs κ (allWrites T) = consec 0 n)
+    (hge : ∀ g ∈ T, ∀ r ∈ g.reads, -1 ≤ r.2.2)
+    (hdep : ∀ pre g post, T = pre ++ g :: post → ∀ r ∈ g.reads, 0 ≤ r.2.2 → r.2.2 ∈ wseqs r.2.1 (allWrites pre))
+    (hsize : ∀ g ∈ T, ∀ r ∈ g.reads, ∃ b, B[r.2.1]? = some b ∧ 0 < b ∧
+      bufSize (minInOf r.1 r.2.1 T) (maxOutOf r.2.1 T) ≤ b) :
+    traceOk true (B.map Ring.init) T = true := traceOk_of_sized T B hcons hge hdep hsize
+
+/-- the same for a compiled instance: what the decision procedure accepts, the executable replay accepts -/
+theorem C08_accepted_instance_replays (i : Inst) (sizes : List Nat)
+    (hk : kindsOk i sizes.length = true) (h : sizedOk (traceOf i 0) sizes.length sizes = true) :
+    replayOk i sizes 0 = true := by
+  apply replayOk_of_sizedOk i sizes _ h
+  simp only [kindsOk, List.all_eq_true, decide_eq_true_eq] at hk
+  exact hk
+
+/-- non-vacuity: the demo instance of C07 (producer 1 → supervisor 0) with buffers of size 2 is accepted -/
+example : sizedOk (traceOf ⟨0, 1, 2, true, [], [⟨0, 1, 0, 0, true, 0, 0, 5, []⟩, ⟨1, 0, 1, 0, true, 0, 7, 9, [(1, [0], [5], [6])]⟩]⟩ 0) 2 [1, 1] = true := by
+  decide
+/-- … and rejected when the consumer is scheduled in the producer's own generation (it would read the default output) -/
+example : sizedOk (traceOf ⟨0, 1, 2, true, [], [⟨0, 1, 1, 0, true, 0, 0, 5, []⟩, ⟨1, 0, 1, 0, true, 0, 7, 9, [(1, [0], [5], [6])]⟩]⟩ 0) 2 [1, 1] = false := by
+  decide
 
 /-- the ring really is tight: with one slot less than the number of live messages a read returns a *newer* message -/
 example : ((((Ring.init 2).write 0).write 1).write 2).readOk true 0 = false := by decide
